@@ -149,6 +149,19 @@ func installEventMonitor(w *Writers, prop string) {
 		m.mu.Unlock()
 	}
 	w.Scratch["subscribeLegacy"] = subscribeLegacy
+	w.OnClose = append(w.OnClose, func(w *Writers) {
+		// the harness cancels the legacy subscriptions it made itself
+		m.mu.Lock()
+		for _, c := range m.cancels {
+			c()
+		}
+		subs := m.subs
+		m.subs = map[int]event.Subscription{}
+		m.mu.Unlock()
+		for _, s := range subs {
+			_ = s.Close()
+		}
+	})
 	w.OnRestart = append(w.OnRestart, func(w *Writers, i int) {
 		m.mu.Lock()
 		m.emitted[i], m.received[i] = nil, nil
